@@ -132,6 +132,19 @@ func c01Pick() (c01Site, string) {
 	return site, mine[vrtChoice("attr", len(mine))]
 }
 
+// c01Load loads the documents down to the dict-level model or, with TYPED=1, all the way to the typed project (the
+// decode step has type switches and conversions of its own); what is returned is only tested for nil.
+func c01Load(opts func(*Options), docs ...map[string]any) (map[string]any, error) {
+	if vrtParam("TYPED", 0) == 1 {
+		p, err := tcLoadProject(nil, opts, docs...)
+		if p == nil {
+			return nil, err
+		}
+		return map[string]any{"name": p.Name}, err
+	}
+	return tcLoad(nil, opts, docs...)
+}
+
 func c01Outcome(m map[string]any, err error) {
 	vrtObserve("err", err != nil)
 	vrtAssert("project-xor-error", (m != nil) != (err != nil))
@@ -147,7 +160,7 @@ func VerifC01Single() {
 	site, attr := c01Pick()
 	k := vrtChoice("kind", c01Kinds)
 	doc := c01Doc(site, attr, c01Hole("h", k), "s")
-	m, err := tcLoad(nil, c01Options, doc)
+	m, err := c01Load(c01Options, doc)
 	c01Outcome(m, err)
 }
 
@@ -159,7 +172,7 @@ func VerifC01Override() {
 	base := c01Doc(site, attr, c01Hole("b", k1), "s")
 	over := c01Doc(site, attr, c01Hole("o", k2), "s")
 	// the override must not repeat image: keep it minimal
-	m, err := tcLoad(nil, c01Options, base, over)
+	m, err := c01Load(c01Options, base, over)
 	c01Outcome(m, err)
 }
 
@@ -174,7 +187,7 @@ func VerifC01Extends() {
 	s := ext["services"].(map[string]any)["s"].(map[string]any)
 	s["extends"] = map[string]any{"service": "t"}
 	doc["services"].(map[string]any)["s"] = s
-	m, err := tcLoad(nil, c01Options, doc)
+	m, err := c01Load(c01Options, doc)
 	c01Outcome(m, err)
 }
 
@@ -195,7 +208,7 @@ func VerifC01ShortForms() {
 		v = map[string]any{"nofile": s}
 	}
 	doc := map[string]any{"services": map[string]any{"s": map[string]any{"image": "i", attr: v}}}
-	m, err := tcLoad(nil, func(o *Options) {
+	m, err := c01Load(func(o *Options) {
 		switch vrtChoice("opt", 5) {
 		case 1:
 			o.SkipInterpolation = true
